@@ -1,7 +1,17 @@
 """C16 -- TCP acknowledgements are cumulative and correct; all data gets through.
-Part 1 (this file, kind='sink'): TCPSink ACK numbers vs coq/Tcp/Sink.v."""
+kind='sink'  : TCPSink ACK numbers vs coq/Tcp/Sink.v.
+kind='loop'  : a real TCPPacketGenerator and a real TCPSink joined by two real Wires (constant delay) and two
+               harness droppers (drop by transmission index), run to quiescence, vs coq/Tcp/Loop.v.
+kind='sender': scripted ACK/expiry histories against the sender alone (generator shared with C17): never raises."""
+from fractions import Fraction as F
+
 from vlib.framework import Prop
 from vlib import coqfmt as cf
+from props import tcp_common as T
+
+import os
+FX = os.environ.get("VERIF_TCP_FX", "current")          # coq/Tcp/Sender.v `current`: the repairs present in /repo (override only for experiments on old trees)
+T_MAX = 1 << 20
 
 
 class Rec:
@@ -12,22 +22,62 @@ class Rec:
         self.got.append(p)
 
 
+def short(x):
+    """a float that was certainly not rounded: dyadic with a short significand"""
+    f = T.fr(x)
+    d = f.denominator
+    return d & (d - 1) == 0 and abs(f.numerator).bit_length() <= 50
+
+
 class C16(Prop):
     id = "C16"
     props_file = "Props/C16.v"
-    coq_imports = ["From ONL Require Import Base.Cmp Tcp.Sink."]
+    coq_imports = ["From ONL Require Import Base.Cmp Tcp.Sink Tcp.Sender Tcp.Loop."]
     n_quick = 1000
     n_thorough = 20000
+    shard = 40
+    case_timeout = 40
     nontrivial_rule = ("sink cases: random arrival sequences of (id,size) segments, mostly MSS-aligned, with reordering, "
-                       "duplicates, gaps, overlapping odd-sized segments and a missing first segment; "
-                       "non-trivial = at least 3 arrivals of which at least one is out of order or duplicated; "
-                       "distinct by hash of the case")
-    trusted_base = ["TCPSink is driven through its public put(); the ACK packet handed to sink.out is what is compared"]
-    assumptions = ["segment ids and sizes are non-negative integers"]
-    partial = []
+                       "duplicates, gaps, overlapping odd-sized segments and a missing first segment; non-trivial = at least 3 "
+                       "arrivals of which at least one is out of order or duplicated. loop cases: flows of 1-8 segments, Reno/CUBIC, "
+                       "random one-way delay, initial RTT estimate, cwnd/ssthresh and up to 4 dropped transmission indices per "
+                       "direction; non-trivial = at least one drop, retransmission or duplicate ACK. sender cases: scripted ACK/expiry "
+                       "histories (as C17); non-trivial = at least 8 events. distinct by hash of the case")
+    trusted_base = [
+        "TCPSink is driven through its public put(); the ACK packet handed to sink.out is what is compared",
+        "closed loop: real TCPPacketGenerator (observed through the subclass/taps of props/tcp_common.py), real TCPSink, two real "
+        "onl.netdev.wire.Wire objects with a constant delay_dist, harness droppers (drop by transmission index) between sender/sink and the wires; "
+        "the whole run of the model (coq/Tcp/Loop.v, its own agenda) is compared with the recorded run: every sender event with its instant, "
+        "arguments, transmitted segments and complete sender state, every packet offered to either dropper with its instant, the final receive buffer, "
+        "and how the run ended",
+        "loop runs are compared exactly on instants and all integral fields; cwnd/ssthresh/rto/srtt/rttvar within a relative 1e-12. Runs in which any "
+        "recorded instant, rto, srtt or rttvar is not a short dyadic float (possible binary64 rounding) are outside the model's domain and are only monitored",
+        "TCPCubic.cnt is an input oracle of the model (see C17); the Timer is taken as specified by C19, the kernel's event order (time, priority, "
+        "insertion) as specified by C01",
+    ]
+    assumptions = ["segment ids and sizes are non-negative integers",
+                   "flow.size is a multiple of the MSS; constant path delay >= 0; initial rtt_estimate > 0; initial cwnd >= MSS",
+                   "drop patterns are finite sets of transmission indices per direction"]
+    partial = [
+        "reliable_delivery (finitely many drops => the run ends with the sink holding [0,size) and last_ack = size) is a liveness claim: the theorems "
+        "carry the safety half (never raises; last_ack <= sink prefix <= next_seq; last_ack monotone; an unfinished transfer always has an armed timer or "
+        "a runnable sender, so the simulation cannot end early); that the pending work terminates is tested (runs to quiescence on random drop "
+        "patterns), not proved",
+        "lossfree_no_retransmit (no drops and 2*delay < the RTO in force at every send => no segment is sent twice) is checked by the monitor on "
+        "every loss-free run and by the loop correspondence; proved is only that a retransmission needs a timer expiry or a third duplicate ACK",
+    ]
 
     # ---- generation -------------------------------------------------------------------------
     def gen_case(self, rng, tier):
+        r = rng.random()
+        if r < 0.5:
+            return self.gen_sink(rng)
+        if r < 0.9:
+            return self.gen_loop(rng)
+        from props.c17 import PROP as C17P
+        return C17P.gen_case(rng, tier)
+
+    def gen_sink(self, rng):
         mss = rng.choice([1, 2, 512, 1000])
         nseg = rng.randint(1, 10)
         style = rng.random()
@@ -51,8 +101,32 @@ class C16(Prop):
                 segs.insert(rng.randrange(len(segs) + 1), (rng.randint(0, nseg * mss), rng.randint(0, 2 * mss)))
         return {"kind": "sink", "segs": [list(s) for s in segs]}
 
+    def gen_loop(self, rng):
+        alg = "reno" if rng.random() < 0.6 else "cubic"
+        nseg = rng.randint(1, 8)
+        case = {"kind": "loop", "alg": alg, "nseg": nseg}
+        if alg == "reno":
+            mss = rng.choice([512, 512, 512, 1000, 64])
+            case.update(mss=mss, cwnd=T.qj(F(mss * rng.choice([1, 1, 2, 4, 8]))),
+                        ssth=T.qj(F(65535) if rng.random() < 0.5 and mss == 512 else F(mss * rng.randint(1, 6))))
+        else:
+            case.update(mss=512, cwnd="512/1", ssth="65535/1")
+        case["rtt0"] = T.qj(rng.choice([F(1, 16), F(1, 4), F(1, 2), F(1), F(1), F(2), F(3)]))
+        case["delay"] = T.qj(rng.choice([F(0), F(1, 8), F(1, 4), F(1, 4), F(1, 2), F(1, 2), F(3, 4), F(1), F(5, 2)]))
+        if rng.random() < 0.3:
+            dd, da = [], []
+        else:
+            dd = sorted(rng.sample(range(16), rng.randint(0, 4)))
+            da = sorted(rng.sample(range(16), rng.randint(0, 4)))
+        case.update(drop_data=dd, drop_ack=da, t_max=T.qj(F(T_MAX)))
+        return case
+
     # ---- implementation ---------------------------------------------------------------------
     def run_impl(self, case):
+        if case["kind"] == "loop":
+            return T.run_loop_case(case)
+        if case["kind"] == "sender":
+            return T.run_sender_case(case)
         from onl.sim import Environment
         from onl.packet import Packet
         from onl.packet.tcp_sink import TCPSink
@@ -77,6 +151,11 @@ class C16(Prop):
         return cf.lst([cf.pair(cf.z(a), cf.z(b)) for a, b in case["segs"]])
 
     def agree_term(self, case, obs):
+        if case["kind"] == "loop":
+            return self.agree_loop(case, obs)
+        if case["kind"] == "sender":
+            from props.c17 import PROP as C17P
+            return C17P.agree_term(case, obs)
         if obs["raised"]:
             return "false"
         acks = cf.lst([cf.z(a[0]) for a in obs["acks"]])
@@ -85,11 +164,62 @@ class C16(Prop):
                 f"listZZ_eqb (buf (run_sink true {self._segs(case)})) {buf} && "
                 f"Z.eqb (nse (run_sink true {self._segs(case)})) {cf.z(obs['nse'])}")
 
+    def loop_in_domain(self, case, obs):
+        if obs["truncated"]:
+            return False
+        for e in obs["entries"]:
+            p = e["post"]
+            if not (short(e["t"]) and short(p["rto"]) and short(p["srtt"]) and short(p["rttvar"])):
+                return False
+            if any(not short(t[1]) or not short(t[2]) for t in p["timers"]):
+                return False
+            if e["ev"][0] == "ack" and not short(e["ev"][3]):
+                return False
+        return all(short(d[3]) for d in obs["data"] + obs["acks"])
+
+    def coq_lcfg(self, case):
+        dd = cf.lst([cf.nat(i) for i in case["drop_data"]])
+        da = cf.lst([cf.nat(i) for i in case["drop_ack"]])
+        return f"(mklcfg {FX} {T.coq_cfg(case)} {cf.q(case['delay'])} {dd} {da} {cf.q(case['t_max'])})"
+
+    def loop_run_term(self, case, obs):
+        oracle = cf.lst([cf.q(e["post"]["cnt"]) for e in obs["entries"] if e["ev"][0] == "ack"])
+        init = f"(linit {cf.q(case['cwnd'])} {cf.q(case['ssth'])} {cf.q(case['rtt0'])} {oracle})"
+        return f"(lrun (Z.to_nat 60000) {self.coq_lcfg(case)} {init})"
+
+    def agree_loop(self, case, obs):
+        if not self.loop_in_domain(case, obs):
+            return None
+        osl = cf.lst([f"(mkslog {cf.q(e['t'])} {T.coq_event(e, e['post'])} "
+                      f"{cf.lst([cf.pair(cf.z(t[0]), cf.z(t[1])) for t in e['tx']])} {T.coq_state(e['post'])})"
+                      for e in obs["entries"]], sep=";\n  ")
+
+        def dl(recs):
+            return cf.lst([f"(mkdlog {cf.nat(r[0])} {cf.z(r[1])} {cf.z(r[2])} {cf.q(r[3])} {cf.b(r[4])})" for r in recs])
+        if obs["raised"]:
+            end = 2
+        elif obs["quiescent"]:
+            end = 0
+        else:
+            end = 1
+        buf = cf.lst([cf.pair(cf.z(a), cf.z(b)) for a, b in obs["sink_buffer"]])
+        return (f"loop_agree {self.loop_run_term(case, obs)}\n {osl}\n {dl(obs['data'])}\n {dl(obs['acks'])} {cf.z(end)} "
+                f"{T.coq_err(obs['raised'])} {buf}")
+
     def model_term(self, case):
-        return f"(acks true sink0 {self._segs(case)}, buf (run_sink true {self._segs(case)}))"
+        if case["kind"] == "sink":
+            return f"(acks true sink0 {self._segs(case)}, buf (run_sink true {self._segs(case)}))"
+        return None
 
     # ---- the property as an oracle over the implementation's behaviour ------------------------
     def monitor(self, case, obs):
+        if case["kind"] == "loop":
+            return self.monitor_loop(case, obs)
+        if case["kind"] == "sender":
+            if obs["raised"]:
+                last = obs["entries"][-1]["ev"] if obs["entries"] else None
+                return [f"sender-raises: {obs['raised']} escaped from the sender at event {last}"]
+            return []
         msgs = []
         if obs["raised"]:
             return [f"sink-raises: TCPSink.put raised {obs['raised']}"]
@@ -111,11 +241,87 @@ class C16(Prop):
             msgs.append(f"sink-ack-count: {obs['n_out']} ACKs for {len(case['segs'])} segments")
         return msgs[:4]
 
+    def monitor_loop(self, case, obs):
+        msgs = []
+        mss, nseg = case["mss"], case["nseg"]
+        size = mss * nseg
+        if obs["raised"]:
+            last = obs["entries"][-1] if obs["entries"] else None
+            where = f"{last['ev']} at t={last['t']}" if last else "start"
+            msgs.append(f"loop-raises: {obs['raised']} escaped from the simulation (sender event {where}; drops data {case['drop_data']} ack {case['drop_ack']})")
+        elif obs["truncated"]:
+            msgs.append(f"loop-never-ends: more than the cap of sender events without reaching quiescence (last_ack {obs['la']} of {size})")
+        elif not obs["quiescent"]:
+            msgs.append(f"loop-never-ends: still busy at t_max={case['t_max']} (last_ack {obs['la']} of {size}, timers {obs['timers_left']})")
+        else:
+            if obs["sink_buffer"] != [[0, size]]:
+                msgs.append(f"loop-incomplete-sink: quiescent with the sink holding {obs['sink_buffer']}, flow is [0,{size})")
+            if obs["la"] != size:
+                msgs.append(f"loop-incomplete-sender: quiescent with last_ack {obs['la']}, flow size {size}")
+            if obs["timers_left"]:
+                msgs.append(f"loop-timers-left: quiescent with timers {obs['timers_left']} still in the table")
+        # ACK numbers: non-decreasing at the sink and at the sender; last_ack monotone, never beyond what was sent
+        prev = 0
+        for r in obs["acks"]:
+            if r[2] < prev:
+                msgs.append(f"loop-ack-decreases: sink ACK {r[2]} after {prev} (transmission {r[0]})")
+                break
+            prev = r[2]
+        la = 0
+        for i, e in enumerate(obs["entries"]):
+            p = e["post"]
+            if e["raised"]:
+                break
+            if p["la"] < la:
+                msgs.append(f"loop-last-ack-decreases: event {i} {e['ev']}: last_ack {la} -> {p['la']}")
+                break
+            la = p["la"]
+            if p["la"] > p["ns"]:
+                msgs.append(f"loop-ack-beyond-sent: event {i}: last_ack {p['la']} > next_seq {p['ns']}")
+                break
+            for t in e["tx"]:
+                if t[1] != mss or t[0] % mss or not (0 <= t[0] < size):
+                    msgs.append(f"loop-bad-segment: event {i}: segment {t[:2]} (MSS {mss}, flow {size})")
+        # loss-free path whose RTT stays below the RTO in force at every send: nothing is sent twice
+        if not case["drop_data"] and not case["drop_ack"] and not obs["raised"]:
+            rtt = 2 * T.fr(case["delay"])
+            pre = obs["init"]
+            ok = True
+            for e in obs["entries"]:
+                if e["ev"][0] == "wake" and e["tx"] and T.fr(pre["rto"]) <= rtt:
+                    ok = False
+                pre = e["post"]
+            ids = [r[1] for r in obs["data"]]
+            if ok and len(ids) != len(set(ids)):
+                dup = sorted({i for i in ids if ids.count(i) > 1})
+                msgs.append(f"loop-lossfree-retransmit: no drops, RTT {rtt} below the RTO at every send, yet segments {dup} were transmitted twice")
+        return msgs[:4]
+
     def nontrivial(self, case, obs):
+        if case["kind"] == "loop":
+            ids = [r[1] for r in obs["data"]]
+            return bool(case["drop_data"] or case["drop_ack"] or len(ids) != len(set(ids)))
+        if case["kind"] == "sender":
+            return len(obs["entries"]) >= 8
         s = case["segs"]
         return len(s) >= 3 and (len(set(map(tuple, s))) < len(s) or any(s[i][0] > s[i + 1][0] for i in range(len(s) - 1)))
 
     def shrink(self, case):
+        if case["kind"] == "loop":
+            for k in ("drop_data", "drop_ack"):
+                for i in range(len(case[k])):
+                    yield {**case, k: case[k][:i] + case[k][i + 1:]}
+            if case["nseg"] > 1:
+                yield {**case, "nseg": case["nseg"] - 1}
+            if case["alg"] == "reno" and case["cwnd"] != T.qj(case["mss"]):
+                yield {**case, "cwnd": T.qj(case["mss"])}
+            if case["alg"] == "reno" and case["ssth"] != "65535/1":
+                yield {**case, "ssth": "65535/1"}
+            return
+        if case["kind"] == "sender":
+            from props.c17 import PROP as C17P
+            yield from C17P.shrink(case)
+            return
         s = case["segs"]
         for i in range(len(s)):
             yield {**case, "segs": s[:i] + s[i + 1:]}
@@ -127,6 +333,20 @@ class C16(Prop):
                     yield {**case, "segs": t}
 
     def describe(self, case, obs):
+        if case["kind"] == "loop":
+            ids = [r[1] for r in obs["data"]]
+            keys = ["loop", "loop:" + case["alg"], "loop:segments=%d" % case["nseg"],
+                    "loop:drops=%d" % (len(case["drop_data"]) + len(case["drop_ack"]))]
+            if len(ids) != len(set(ids)):
+                keys.append("loop:has-retransmission")
+            if any(e["ev"][0] == "exp" for e in obs["entries"]):
+                keys.append("loop:has-timer-expiry")
+            if any(e["ev"][0] == "ack" and e["post"]["dup"] >= 3 for e in obs["entries"]):
+                keys.append("loop:has-fast-retransmit")
+            keys.append("loop:compared" if self.loop_in_domain(case, obs) else "loop:monitored-only(float rounding possible)")
+            return keys
+        if case["kind"] == "sender":
+            return ["sender", "sender:" + case["alg"]]
         s = case["segs"]
         keys = ["sink"]
         if len(set(map(tuple, s))) < len(s):
